@@ -155,7 +155,13 @@ class Sector(EconomicObject):
                 raise ValueError('The use of "__" in sector codes is invalid: ' + self.FullCode)
             if '__' in varname:
                 raise ValueError('The use of "__" in variable local names is invalid: ' + varname)
-            return self.FullCode + '__' + varname
+            full_name = self.FullCode + '__' + varname
+            model = self.GetModel()
+            if getattr(model, 'State', '') == 'Construction':
+                # Full codes generated during construction (e.g., by LogInfo()) can still change if
+                # another Country is added; register the name so that it is corrected like an alias.
+                model._RegisterAlias(full_name, self, varname)
+            return full_name
 
     def IsSharedCurrencyZone(self, other):
         """
